@@ -184,14 +184,17 @@ func verifNextOutcome() (kind int, status int) {
 	return
 }
 
-// verifInterim: whether the scripted backend sends an interim 103 Early Hints before its final status.
+// verifInterims: how many interim 103 Early Hints responses (each carrying its
+// own Link header) the scripted backend sends before its final status: 0..2.
 var verifNoInterim = true
 
-func verifInterim() bool {
+const verifInterimHeader = "Link"
+
+func verifInterims() int {
 	if verifForceOK || verifNoInterim {
-		return false
+		return 0
 	}
-	return verifrt.Bool("backendSendsInterim103")
+	return verifrt.Choice("backendInterims", 3)
 }
 
 // harness-owned shared state is guarded by its own mutex so that concurrent
